@@ -25,6 +25,11 @@ CLAIMED = {
             "Every call of a seeded history (all four flavours, every handle provenance) is compared with the sequential meaning C03 states, the whole graph is read back from both endpoints after each call, and panics / self-deadlocks / step-budget overruns are verdicts. Sampling, not proof.",
             "Trusted: the reference model (sim/gsim/src/model.rs), the single-task lock observer. One task by construction (the plain flavours are !Send).",
             "DESIGN.md §4 C03"),
+    "C17": ("conc", "exploration",
+            "deterministic simulation: simulated caller threads under a seeded baton-passing scheduler over the lock seam (every interleaving of lock acquisitions and the RwLock queueing policy decided by the PRNG), serialisability check against a reference model, minimised replayable schedule",
+            "2-4 simulated caller threads run seeded scripts of mutations, queries, iteration and traversals on shared sync nodes; the scheduler decides who runs at every lock acquisition (uniform / PCT / sticky / serial policies, writer preference on or off). Verdicts: deadlock (no task runnable), step-budget overrun, panic or poisoned lock, quiescent mirror/symmetry invariant, and existence of a sequential order of the mutating calls that explains every return value and the final graph. Seeded schedule search, not exhaustive.",
+            "Trusted: scheduler and lock model (cross-checked against the real lock at every grant), reference model. Context switches only at lock acquisitions (all shared mutable state of the sync flavours is under those locks). Nodes kept alive by the harness.",
+            "DESIGN.md §4 C17"),
 }
 
 NOT_APPLICABLE = {
